@@ -276,6 +276,99 @@ def check_hist_keep(rep, mod):
         raise AnalysisBroken('R-HIST-KEEP: no copy from the caller\'s input to the start of state->buffer found in isal_deflate')
 
 
+USER_PARAMS = ['level', 'level_buf', 'level_buf_size', 'hufftables', 'gzip_flag', 'hist_bits', 'flush', 'end_of_stream']
+# one confirmed exception: set_dist_mask replaces the hist_bits requests that mean "default" (0, or anything above ISAL_DEF_MAX_HIST_BITS) by the constant ISAL_DEF_MAX_HIST_BITS, the
+# window they are served with anyway; the store is idempotent and changes nothing for this or a later stream
+PARAM_KEEP_EXCEPT = {('hist_bits', 'set_dist_mask')}
+
+
+def check_param_keep(rep, mod):
+    """The settings of the stream that the caller chooses (wrapper, level, flush type, tables ...) belong to the caller: isal_deflate_reset keeps them for the next stream, and
+    a streaming call is repeated with them.  A function below isal_deflate that changes one has to put it back, or hand the obligation to its caller; isal_deflate itself must
+    not leave one changed.  (isal_deflate deliberately lowers flush / end_of_stream while it works from its internal buffer, and restores them from copies taken on entry.)"""
+    R = rep.rule('R-PARAM-KEEP', 'isal_deflate: for every caller-chosen setting of the stream (%s): whenever a store, or a call of a function that may leave the setting changed, modifies it, the same function later '
+                 'stores back a value it loaded from the setting before the modification (save / restore); "may leave it changed" is computed bottom-up over the call graph' % ', '.join(USER_PARAMS), floor=8,
+                 unit='settings')
+    S = c19.summaries(mod)
+    offs = c19.field_offsets('struct isal_zstream', USER_PARAMS)
+    top = mod.funcs.get('isal_deflate')
+    if top is None:
+        raise AnalysisBroken('isal_deflate not found')
+    # functions reachable from isal_deflate
+    reach, work = set(), ['isal_deflate']
+    while work:
+        n = work.pop()
+        if n in reach or n not in mod.funcs:
+            continue
+        reach.add(n)
+        work += [i.callee for i in mod.funcs[n].all_insns() if i.op == 'call' and i.callee in mod.funcs]
+    for name in USER_PARAMS:
+        off = offs[name]
+        R.instance()
+        leaves = {}          # function -> witness insn (it may return with the setting changed)
+        changed = True
+        rounds = 0
+        while changed and rounds < 20:
+            changed = False
+            rounds += 1
+            for n in sorted(reach):
+                if n in leaves:
+                    continue
+                f = mod.funcs[n]
+                pidx = [k for k, (t, _) in enumerate(f.params) if 'struct.isal_zstream*' in t]
+                if not pidx:
+                    continue
+                P = irrules.prov(mod, f)
+                fld = ('param', pidx[0], off)
+                clob = []
+                for i in f.all_insns():
+                    if i.op == 'store' and P.atoms(i.ops[1]) == {fld}:
+                        if (name, n) in PARAM_KEEP_EXCEPT and re.match(r'^\d+$', i.ops[0]):
+                            continue
+                        clob.append(i)
+                    elif i.op == 'call' and i.callee in leaves and i.ops:
+                        # the callee gets this function's stream
+                        for k, (t, _) in enumerate(mod.funcs[i.callee].params):
+                            if 'struct.isal_zstream*' in t and k < len(i.ops) and P.atoms(i.ops[k]) == {('param', pidx[0], 0)}:
+                                clob.append(i)
+                if not clob:
+                    continue
+
+                def saved_copy(v, before, depth=0):
+                    d = f.defs.get(v)
+                    if d is None or depth > 6:
+                        return False
+                    if d.op in ('zext', 'sext', 'trunc', 'bitcast'):
+                        return saved_copy(d.ops[0], before, depth + 1)
+                    if d.op == 'phi':
+                        return all(saved_copy(x, before, depth + 1) for x, _ in d.extra['incoming'])
+                    return d.op == 'load' and P.atoms(d.ops[0]) == {fld} and (f.dominates(d.block, before.block) and (d.block != before.block or f.blocks[d.block].insns.index(d) < f.blocks[before.block].insns.index(before)))
+                for cl in clob:
+                    if cl.op == 'store' and saved_copy(cl.ops[0], cl):
+                        continue          # this store IS a restore
+                    after = f.reachable_avoiding(cl.block, set())
+                    restored = False
+                    for i in f.all_insns():
+                        if i.op == 'store' and i is not cl and P.atoms(i.ops[1]) == {fld} and saved_copy(i.ops[0], cl):
+                            if (i.block == cl.block and f.blocks[i.block].insns.index(i) > f.blocks[cl.block].insns.index(cl)) or (i.block != cl.block and i.block in after):
+                                restored = True
+                    if not restored:
+                        leaves[n] = cl
+                        changed = True
+                        break
+        w = leaves.get('isal_deflate')
+        chain = ''
+        if w is not None:
+            x, hops = w, []
+            while x is not None and x.op == 'call' and len(hops) < 6:
+                hops.append(x.callee)
+                x = leaves.get(x.callee)
+            chain = ' -> '.join(hops)
+        R.check(w is None, mod.where(top, w) if w is not None else mod.where(top, None), 'isal_deflate can return with the caller\'s setting %s changed%s and nothing puts the value back: the next stream after '
+                'isal_deflate_reset(), or the next call, runs with a setting the caller did not choose' % (name, (' (through ' + chain + ')') if chain else ''), key='R-PARAM-KEEP|%s' % name,
+                sample='%s: %s' % (name, 'never modified below isal_deflate' if not leaves else 'modified below isal_deflate and restored (%s)' % ', '.join(sorted(leaves))))
+
+
 def main(tier):
     rep = Report('C07', tier, level='other')
     rep.undecided = UNDECIDED
@@ -304,6 +397,7 @@ def main(tier):
     rep.attempt(check_state_handled, rep, mod)
     rep.attempt(check_tmp_twins, rep, mod)
     rep.attempt(check_hist_keep, rep, mod)
+    rep.attempt(check_param_keep, rep, mod)
     import c11
     rep.attempt(c11.check_adler_bam1, rep, mod)        # the zlib checksum carried from call to call
     rep.attempt(c19.check_hdr_persist, rep, mod)      # a wrapper header cut by a call boundary is parsed like the same header in one piece
